@@ -24,6 +24,14 @@ theorem get_binary_noop (c : Cfg) (hc : c.Valid) {x : Coder} (hcap : x.cap = non
   refine ⟨_, getBinary_marker hc hcap hst hv, intoBinary_marker hc hcap hst hv, ?_⟩
   exact getBinary_guard hcap (getBinary_marker hc hcap hst hv)
 
+/-- Bounded backends (`Cursor` of any capacity): whenever the guard can be created, dropping it
+    restores the coder exactly. When it cannot (backend full), the repaired code (`fix:` D17)
+    pops what it had written, which the model expresses by not producing a new coder at all;
+    the correspondence check exercises exactly this path (`ansc … | getc`). -/
+theorem get_compressed_noop_bounded (c : Cfg) {x y : Coder} (h : getCompressedThenDrop c x = some y) :
+    y = x :=
+  getCompressed_guard_any h
+
 /-- if `get_binary()` fails, nothing was written -/
 theorem get_binary_fail_noop (c : Cfg) {x : Coder} (hcap : x.cap = none) {ws : List Nat}
     (h : getBinary c x = .ok ws) : getBinaryThenDrop c x = some x :=
@@ -50,5 +58,6 @@ end CV.Ans.C08
 
 #print axioms CV.Ans.C08.get_compressed_noop
 #print axioms CV.Ans.C08.get_binary_noop
+#print axioms CV.Ans.C08.get_compressed_noop_bounded
 #print axioms CV.Ans.C08.get_binary_fail_noop
 #print axioms CV.Ans.C08.inspect_erasure
